@@ -7,6 +7,7 @@ CONSTANTS
   Bodies = {1}
   Protos = {"ok", "unk"}
   RoleCfgs <- GenTableRoleCfgs
+  AllowCfgs <- GenTableAllowCfgs
   TypeCfgs <- GenTableTypeCfgs
   NB = 2
   LB = 2
